@@ -52,6 +52,17 @@ func groupY(t *testing.T, rep *ev.Report) []func() {
 			jobs = append(jobs, func() { clientGoAway(t, rep, last, n) })
 		}
 	}
+	// Y4: the client shrinks SETTINGS_INITIAL_WINDOW_SIZE in the middle of a response (the stream's send window goes
+	// negative, RFC 7540 6.9.2), then returns credit in steps smaller / larger than the deficit, by WINDOW_UPDATE or by
+	// raising the setting again: the response arrives complete all the same
+	for _, first := range []uint32{1000, 16384} {
+		for _, shrinkTo := range []uint32{0, 1, 500} {
+			for _, how := range []string{"wu-small-then-large", "settings-small-then-large", "wu-exact", "settings-back"} {
+				first, shrinkTo, how := first, shrinkTo, how
+				jobs = append(jobs, func() { negativeWindow(t, rep, first, shrinkTo, how) })
+			}
+		}
+	}
 	// Z: the backend dies in the middle of a response body (with and without a declared length): the client must not be
 	// shown a complete response
 	for _, proto := range []string{"h1", "h2"} {
@@ -246,6 +257,68 @@ func stalledSibling(t *testing.T, rep *ev.Report, iws uint32, others, nB int) {
 		if r := e.h2.Col.Resps[1]; r == nil || !r.Ended || r.Status != "200" || !bytes.Equal(r.Body, bodyA) {
 			rep.Violate(map[string]any{"kind": "stalled-response-damaged", "proto": "h2"}, map[string]any{"desc": desc},
 				"%s: after the client opened the window of stream 1 its response is %s, the backend sent 200 with %d bytes", desc, summarize(r), len(bodyA))
+		}
+	})
+	if res.Panic != nil {
+		rep.HarnessError("%s: panic: %v\n%s", desc, res.Panic, res.Stack)
+	}
+	if res.Hang != "" {
+		rep.Violate(map[string]any{"kind": "hang"}, map[string]any{"hang": res.Hang}, "%s: the exchange never completed: %s", desc, res.Hang)
+	}
+}
+
+func negativeWindow(t *testing.T, rep *ev.Report, first, shrinkTo uint32, how string) {
+	desc := fmt.Sprintf("Y4 client SETTINGS_INITIAL_WINDOW_SIZE=%d, after %d response bytes lowered to %d (stream window negative), credit returned by %s", first, first, shrinkTo, how)
+	res := bubble.Run(t, func() {
+		clientSettings = []h2wire.Setting{{ID: 4, Val: first}}
+		defer func() { clientSettings = nil }()
+		body := pat(40000, 9)
+		e := newEnv(rep, false, func(r *bubble.RecReq) *bubble.RespScript {
+			return &bubble.RespScript{Status: 200, Header: http.Header{"Content-Type": {"application/x-c08"}, "Content-Length": {fmt.Sprint(len(body))}}, Pieces: [][]byte{body}}
+		})
+		if e == nil {
+			return
+		}
+		defer e.close()
+		e.h2.Headers(1, get("/a"), true)
+		synctest.Wait()
+		e.h2.Pump()
+		if r := e.h2.Col.Resps[1]; r == nil || r.Ended || uint32(len(r.Body)) != first {
+			rep.HarnessError("%s: stream 1 did not stall after %d bytes: %s", desc, first, summarize(r))
+			return
+		}
+		rep.Add("evaluations", 1)
+		rep.Note("distinct_nontrivial", desc)
+		deficit := first - shrinkTo // the window is now -(first - shrinkTo)
+		e.h2.C.Write(h2wire.Settings(h2wire.Setting{ID: 4, Val: shrinkTo}))
+		synctest.Wait()
+		small := deficit / 2
+		if small == 0 {
+			small = 1
+		}
+		switch how {
+		case "wu-small-then-large":
+			e.h2.C.Write(h2wire.WindowUpdate(1, small)) // still negative (or zero)
+			synctest.Wait()
+			e.h2.C.Write(h2wire.WindowUpdate(1, 1<<20))
+		case "settings-small-then-large":
+			e.h2.C.Write(h2wire.Settings(h2wire.Setting{ID: 4, Val: shrinkTo + small}))
+			synctest.Wait()
+			e.h2.C.Write(h2wire.Settings(h2wire.Setting{ID: 4, Val: 1 << 20}))
+		case "wu-exact":
+			e.h2.C.Write(h2wire.WindowUpdate(1, deficit)) // exactly zero
+			synctest.Wait()
+			e.h2.C.Write(h2wire.WindowUpdate(1, 1<<20))
+		case "settings-back":
+			e.h2.C.Write(h2wire.Settings(h2wire.Setting{ID: 4, Val: first})) // exactly zero again
+			synctest.Wait()
+			e.h2.C.Write(h2wire.Settings(h2wire.Setting{ID: 4, Val: 1 << 20}))
+		}
+		synctest.Wait()
+		e.h2.Pump()
+		if r := e.h2.Col.Resps[1]; r == nil || !r.Ended || r.Status != "200" || !bytes.Equal(r.Body, body) {
+			rep.Violate(map[string]any{"kind": "response-damaged-after-negative-window", "proto": "h2", "how": how}, map[string]any{"desc": desc},
+				"%s: the client got %s (goaway=%v), the backend sent 200 with %d bytes", desc, summarize(r), e.h2.Col.GoAway != nil, len(body))
 		}
 	})
 	if res.Panic != nil {
